@@ -152,7 +152,7 @@ theorem xmldecl_standalone_exact_witness :
 /-- **Entity gate with the exact declaration reader** (every string): when `fn:parse-xml` with
 `defuse_xml` on returns a document, the prolog scan met no entity declaration and no completed
 external identifier of a non-standalone document. -/
-theorem xmldecl_gate (s : String) (x : String) (h : parseXmlTextX true s = .ok x) :
+theorem xmldecl_gate (o : EncClass) (s : String) (x : String) (h : parseXmlTextX o true s = .ok x) :
     (scanPrologX s.toList).1.forbidden = false := by
   unfold parseXmlTextX at h
   dsimp only at h
@@ -166,14 +166,14 @@ theorem xmldecl_gate (s : String) (x : String) (h : parseXmlTextX true s = .ok x
       simp only [Bool.true_and, Bool.not_eq_true] at hf
       exact hf
 
-example : parseXmlTextX true "<?xml version=\"1.0\" standalone=\"yes\"?><!DOCTYPE r SYSTEM \"x\"><r>t</r>" = .ok "t" := by
+example : parseXmlTextX .unknown true "<?xml version=\"1.0\" standalone=\"yes\"?><!DOCTYPE r SYSTEM \"x\"><r>t</r>" = .ok "t" := by
   rfl
 
 /-- **F19e repaired (fix-c19-5), every string**: a text whose well-formed declaration names an
 encoding the byte parser cannot use is an ordinary ill-formed document — FODC0006, with and without
 defusing, whatever follows the declaration (so never a bare Python exception, never an expansion). -/
-theorem unusable_encoding_is_FODC0006 (df : Bool) (s : String) (h : rawEncoding s.toList = true) :
-    parseXmlTextX df s = .error .FODC0006 := by
+theorem unusable_encoding_is_FODC0006 (o : EncClass) (df : Bool) (s : String) (h : rawEncoding o s.toList = true) :
+    parseXmlTextX o df s = .error .FODC0006 := by
   unfold rawEncoding at h
   unfold parseXmlTextX
   dsimp only
@@ -188,11 +188,15 @@ theorem unusable_encoding_is_FODC0006 (df : Bool) (s : String) (h : rawEncoding 
 
 /-- record of F19e on its former witnesses (kernel-checked) -/
 theorem F19e_witness :
-    rawEncoding "<?xml version=\"1.0\" encoding=\"x-foo\"?><r>t</r>".toList = true ∧
-    parseXmlTextX false "<?xml version=\"1.0\" encoding=\"x-foo\"?><r>t</r>" = .error .FODC0006 ∧
-    parseXmlTextX true "<?xml version=\"1.0\" encoding=\"big5\"?><!DOCTYPE r [<!ENTITY e \"X\">]><r>&e;</r>" = .error .FODC0006 ∧
-    rawEncoding "<?xml version=\"1.0\" encoding=\"utf-8\"?><r>t</r>".toList = false ∧
-    parseXmlTextX false "<?xml version=\"1.0\" encoding=\"utf-8\"?><r>t</r>" = .ok "t" := by
-  refine ⟨by rfl, by rfl, by rfl, by rfl, by rfl⟩
+    rawEncoding .ok "<?xml version=\"1.0\" encoding=\"x-foo\"?><r>t</r>".toList = true ∧
+    parseXmlTextX .ok false "<?xml version=\"1.0\" encoding=\"x-foo\"?><r>t</r>" = .error .FODC0006 ∧
+    parseXmlTextX .ok true "<?xml version=\"1.0\" encoding=\"big5\"?><!DOCTYPE r [<!ENTITY e \"X\">]><r>&e;</r>" = .error .FODC0006 ∧
+    rawEncoding .unknown "<?xml version=\"1.0\" encoding=\"utf-8\"?><r>t</r>".toList = false ∧
+    parseXmlTextX .unknown false "<?xml version=\"1.0\" encoding=\"utf-8\"?><r>t</r>" = .ok "t" ∧
+    -- a name outside the table follows the oracle (`Utf-` is an alias of UTF-8 in CPython: class ok)
+    tableClass "Utf-".toList = none ∧
+    parseXmlTextX .ok true "<?xml version=\"1.1\" encoding='Utf-'?><!DOCTYPE r SYSTEM \"x\"><r>t</r>" = .error .forbidden ∧
+    parseXmlTextX .unknown true "<?xml version=\"1.1\" encoding='Utf-'?><!DOCTYPE r SYSTEM \"x\"><r>t</r>" = .error .FODC0006 := by
+  refine ⟨by rfl, by rfl, by rfl, by rfl, by rfl, by rfl, by rfl, by rfl⟩
 
 end EPV.C19
